@@ -34,6 +34,19 @@ def parseAdd (ws : List String) : Option (CItem × BatchCfg) :=
 def step (s : St) (line : String) : St × String :=
   match words line with
   | ["reset"] => ({}, "reset")
+  | ["race", d] =>
+    -- the unsubscribe-versus-broadcast schedule: the broadcast passed the subscribed check, the
+    -- unsubscribe ran `delWriter(ch, false)`, then the broadcast reaches `perChannelWriter.Add`
+    match d.toNat? with
+    | some dl =>
+      let p0 : PCW := {}
+      let (p1, _) := p0.del 1 false
+      let (p2, b) := p1.add 1 ⟨1, 0, .pub⟩ ⟨0, dl, false⟩
+      let (_, gs) := PCW.sleep (dl + 7) p2 (dl + 5) []
+      let delivered := b.isSome || !gs.isEmpty
+      let late := !gs.isEmpty
+      (s, s!"race unsub_reply=1 pub_delivered={if delivered then 1 else 0} pub_after_unsub={if late then 1 else 0}")
+    | none => (s, "bad-op")
   | "add" :: rest =>
     match kvNat rest "ch", parseAdd rest with
     | some ch, some (x, c) => let (p', b) := s.p.add ch x c; ({ s with p := p' }, fmtGroups (optGroup b))
